@@ -200,8 +200,8 @@ CLAIMED = {
         "category": "model_checking",
         "text": "Explicit-state BFS over all reachable states of real Entry objects and table cells (1-3 dimensional, "
                 "Dict and List dimensions incl. two leading List dimensions, fresh and pre-initialised, with a cell handle kept from before the first write) under every batch of <=2 (quick) / <=3 (thorough) "
-                "candidates over {0,1,2}x{None,a,b}, for the 2x3 policy pairs, with the reference (optimum, optimal-tag set) "
-                "run in lock-step; every pair of reachable entry states combined under 7 combinators (three with tag-dependent values), each pair also with the left / right / both operands living in table cells; all histories of "
+                "candidates over {0,1,2}x{None,a,b}, for the 2x3 policy pairs (also entries copied from another entry through the (value, infos) constructor), with the reference (optimum, optimal-tag set) "
+                "run in lock-step; every pair of reachable entry states combined under 8 combinators (three with tag-dependent values, one that returns untagged candidates), each pair also with the left / right / both operands living in table cells; all histories of "
                 "depth 4 (quick) / 5 (thorough) in every batch split replayed on fresh objects. Exhaustive within those bounds.",
         "design_ref": "6 (C16), 3 (E1 explorer)",
         "note": "Trusted: CPython, the `infinity` package ordering, refmodel/dpentry.py. Values outside {0,1,2} and falsy tags are not explored.",
@@ -209,12 +209,12 @@ CLAIMED = {
     },
     "C17": {
         "category": "exploration",
-        "text": "Exhaustive over all rooted plane trees of any arity with <= 9 (quick) / 11 (thorough) nodes built through the ete3 API (plus edit "
+        "text": "Exhaustive over all rooted plane trees of any arity with <= 11 (quick) / 12 (thorough) nodes built through the ete3 API (plus edit "
                 "histories: structure built, the same tree object edited by every subtree move / leaf addition / removal, rebuilt; <= 7 / 8 nodes; structures of a tree and of its subtrees alive together; nameless nodes): every "
                 "node, ordered pair and ordered triple for lca / is_ancestor_of / is_strict_ancestor_of / is_comparable / level / distance against "
                 "parent-chain definitions; every array of length <= 11 / 13 over {0,1,2} x every (start, stop) pair for RangeMinQuery.",
         "design_ref": "6 (C17)",
-        "note": "Trusted: ete3 parent/children pointers, refmodel/trees.py. Trees beyond 11 nodes and arrays beyond length 13 are not explored.",
+        "note": "Trusted: ete3 parent/children pointers, refmodel/trees.py. Trees beyond 12 nodes and arrays beyond length 13 are not explored.",
         "technique": TECH_E2,
     },
     "C18": {
